@@ -218,6 +218,21 @@ func Gen(t *rapid.T) Plan {
 		}
 	}
 
+	// storm template: a burst of writes on distinct keys at one instant, immediately followed (same virtual instant)
+	// by a late registration, so that a new watch is established while deliveries are still pending
+	if len(p.Probes) >= 2 && rapid.IntRange(0, 2).Draw(t, "storm") == 0 {
+		at := rapid.IntRange(100, 2500).Draw(t, "stormat")
+		n := rapid.IntRange(4, 9).Draw(t, "stormn")
+
+		for i := 0; i < n; i++ {
+			p.Script = append(p.Script, ExtOp{AtMs: at, K: rapid.SampledFrom([]string{"create", "create", "update"}).Draw(t, "stormk"), Typ: i % 3, ID: (i / 3) % 3})
+		}
+
+		sort.SliceStable(p.Script, func(i, j int) bool { return p.Script[i].AtMs < p.Script[j].AtMs })
+
+		p.Probes[rapid.IntRange(0, len(p.Probes)-1).Draw(t, "stormprobe")].RegAt = at
+	}
+
 	p.Latency = rapid.SliceOfN(rapid.SampledFrom([]int{0, 0, 0, 1, 10, 100}), 1, 6).Draw(t, "latency")
 	p.Deliv = rapid.SliceOfN(rapid.SampledFrom([]int{0, 0, 0, 5, 200, 700}), 1, 6).Draw(t, "deliv")
 
@@ -340,14 +355,15 @@ func runBubble(p Plan) (v hk.Verdict) {
 
 	var tl []ev
 
+	for i, op := range p.Script {
+		tl = append(tl, ev{at: op.AtMs, reg: -1, op: op, n: i})
+	}
+
+	// registrations come after the writes of the same instant (stable sort below)
 	for i, ps := range p.Probes {
 		if ps.RegAt > 0 {
 			tl = append(tl, ev{at: ps.RegAt, reg: i})
 		}
-	}
-
-	for i, op := range p.Script {
-		tl = append(tl, ev{at: op.AtMs, reg: -1, op: op, n: i})
 	}
 
 	sort.SliceStable(tl, func(i, j int) bool { return tl[i].at < tl[j].at })
